@@ -28,3 +28,26 @@ Example g_example_printers :
   M_fn_char_to_smt 34 = Some [34; 34] /\ M_fn_char_to_smt 10 = Some [92; 117; 123; 48; 97; 125] /\
   M_fn_char_to_smt 233 = Some [92; 117; 48; 48; 101; 57] /\ M_fn_smt_char_as_string 196607 = Some [92; 117; 123; 50; 102; 102; 102; 102; 125].
 Proof. vm_compute. repeat split; reflexivity. Qed.
+
+(* ---- Display for SmtString on the regenerated code ---- *)
+Lemma g_display_total s f : exists t, M_SmtString_fmt s f = Some (f ++ t, Ok tt) /\ t = smt_display (SmtString_s s).
+Proof. eexists. split; [apply link_display|reflexivity]. Qed.
+
+(* to_string() = fmt into an empty Formatter: ASCII, and it reads back as the string (C08 round trip) *)
+Lemma g_display_ascii s : goodw (SmtString_s s) ->
+  exists t, M_SmtString_fmt s [] = Some (t, Ok tt) /\ Forall (fun c => 32 <= c <= 126) t.
+Proof.
+  intros Hs. rewrite link_display. cbn [app]. eexists. split; [reflexivity|]. apply display_ascii. exact Hs.
+Qed.
+Lemma g_display_injective s1 s2 t : goodw (SmtString_s s1) -> goodw (SmtString_s s2) ->
+  M_SmtString_fmt s1 [] = Some (t, Ok tt) -> M_SmtString_fmt s2 [] = Some (t, Ok tt) -> SmtString_s s1 = SmtString_s s2.
+Proof.
+  intros H1 H2. rewrite !link_display. cbn [app]. intros E1 E2.
+  apply (display_injective _ _ H1 H2). congruence.
+Qed.
+Lemma g_display_roundtrip s : goodw (SmtString_s s) ->
+  exists t, M_SmtString_fmt s [] = Some (t, Ok tt) /\
+            parse_smt_literal (lit_undouble (lit_body t)) = Some (SmtString_s s).
+Proof.
+  intros Hs. rewrite link_display. cbn [app]. eexists. split; [reflexivity|]. apply roundtrip. exact Hs.
+Qed.
